@@ -150,6 +150,7 @@ type loopInfo struct {
 	minPos    token.Pos
 	modLocals map[*ssa.Alloc]bool
 	modHeaps  map[string]bool
+	frame     *loopFrame
 }
 
 type TV struct {
@@ -339,11 +340,21 @@ func (c *FnCtx) heapWellTyped(key string, h Term) {
 		bound := c.next(c.curState())
 		if strings.HasPrefix(key, "E_") {
 			cell := Term{fmt.Sprintf("(select (select %s p!) i!)", h.S), c.g.u.sortOf(ct)}
+			if _, isStruct := types.Unalias(ct).Underlying().(*types.Struct); isStruct {
+				if fs := c.g.liteRangeFacts(cell, ct, 2); len(fs) > 0 {
+					c.define(Term{fmt.Sprintf("(forall ((p! Int) (i! Int)) (! %s :pattern ((select (select %s p!) i!))))", and(fs...).S, h.S), SBool})
+				}
+			}
 			if fs := c.g.refFacts(cell, ct, bound, 2); len(fs) > 0 {
 				c.define(Term{fmt.Sprintf("(forall ((p! Int) (i! Int)) (=> (and (< 0 p!) (< p! %s)) %s))", bound.S, and(fs...).S), SBool})
 			}
 		} else if strings.HasPrefix(key, "H_") {
 			cell := Term{fmt.Sprintf("(select %s p!)", h.S), c.g.u.sortOf(ct)}
+			if _, isStruct := types.Unalias(ct).Underlying().(*types.Struct); isStruct {
+				if fs := c.g.liteRangeFacts(cell, ct, 2); len(fs) > 0 {
+					c.define(Term{fmt.Sprintf("(forall ((p! Int)) (! %s :pattern ((select %s p!))))", and(fs...).S, h.S), SBool})
+				}
+			}
 			if fs := c.g.refFacts(cell, ct, bound, 2); len(fs) > 0 {
 				c.define(Term{fmt.Sprintf("(forall ((p! Int)) (=> (and (< 0 p!) (< p! %s)) %s))", bound.S, and(fs...).S), SBool})
 			}
@@ -434,7 +445,7 @@ func (c *FnCtx) storeTo(st *State, a *Addr, v Term) {
 		if !ok {
 			root = c.g.u.zero(a.rootType)
 		}
-		st.locals[a.local] = c.writePath(root, a.path, v)
+		st.locals[a.local] = c.named("loc_"+a.local.Comment, c.writePath(root, a.path, v))
 	case aGlobal:
 		key := "G_" + mangle(a.global.Pkg.Pkg.Path()+"."+a.global.Name())
 		root := c.heap(st, key, c.g.u.sortOf(a.rootType))
@@ -442,15 +453,26 @@ func (c *FnCtx) storeTo(st *State, a *Addr, v Term) {
 	case aHeap:
 		key, s := c.g.heapKeyFor(a.rootType)
 		h := c.heap(st, key, s)
-		st.heaps[key] = store(h, a.ref, c.writePath(sel(h, a.ref), a.path, v))
+		st.heaps[key] = c.named("hs_"+key, store(h, a.ref, c.writePath(sel(h, a.ref), a.path, v)))
 	case aElem:
 		key, s := c.g.elemHeapKey(a.rootType)
 		h := c.heap(st, key, s)
 		base := sBase(a.slice)
 		i := eidx(sOff(a.slice), a.idx)
 		arr := sel(h, base)
-		st.heaps[key] = store(h, base, store(arr, i, c.writePath(sel(arr, i), a.path, v)))
+		st.heaps[key] = c.named("hs_"+key, store(h, base, store(arr, i, c.writePath(sel(arr, i), a.path, v))))
 	}
+}
+
+// named introduces a definition for a large term so that later terms refer to it by name (keeps
+// queries linear in the number of updates instead of exponential).
+func (c *FnCtx) named(base string, t Term) Term {
+	if len(t.S) < 400 {
+		return t
+	}
+	n := c.fresh(base, t.Sort)
+	c.define(eq(n, t))
+	return n
 }
 
 // ---------------------------------------------------------------------------
@@ -616,6 +638,11 @@ func (c *FnCtx) instrMods(in ssa.Instruction, locals map[*ssa.Alloc]bool, heaps 
 		// callee with contract: its modifies clauses
 		if spec := c.calleeSpec(common); spec != nil {
 			for k := range c.specModHeaps(spec, common) {
+				heaps[k] = true
+			}
+			for _, ef := range spec.Effects {
+				k := "GH_" + ef.Name[1:]
+				c.g.heapSorts[k] = SBool
 				heaps[k] = true
 			}
 		}
@@ -1065,6 +1092,7 @@ func (c *FnCtx) enterLoop(li *loopInfo, entry *State, entryReach Term) (*State, 
 	}
 	// NEXT first, so that the heap versions introduced below are bounded by the loop-head NEXT
 	lf := c.computeLoopFrame(li)
+	li.frame = lf
 	preNext := c.next(entry)
 	if li.modHeaps[nextKey] {
 		before := c.next(st)
@@ -1090,6 +1118,18 @@ func (c *FnCtx) enterLoop(li *loopInfo, entry *State, entryReach Term) (*State, 
 		if strings.HasPrefix(k, "H_") || strings.HasPrefix(k, "E_") || strings.HasPrefix(k, "M") {
 			if targets, ok := c.preciseTargets(li, lf, k, entry); ok {
 				c.define(frameFact(st.heaps[k], pre, preNext, targets))
+				// fields of the written objects that no store in the loop touches keep their value
+				if ct, isH := c.g.heapCell[k]; isH && strings.HasPrefix(k, "H_") && !lf.wholeWrite[k] {
+					if stt, isStruct := types.Unalias(ct).Underlying().(*types.Struct); isStruct {
+						for _, t := range targets {
+							for f := 0; f < stt.NumFields(); f++ {
+								if !lf.fieldWrites[k][f] {
+									c.define(eq(c.g.u.field(sel(st.heaps[k], t), f), c.g.u.field(sel(pre, t), f)))
+								}
+							}
+						}
+					}
+				}
 			}
 		}
 	}
@@ -1117,7 +1157,10 @@ func (c *FnCtx) enterLoop(li *loopInfo, entry *State, entryReach Term) (*State, 
 		}
 		inv = and(parts...)
 	}
-	c.define(eq(reach, and(entryReach, inv)))
+	// one direction only: reach is used positively (as a hypothesis), and keeping the quantified
+	// invariant out of an equivalence lets the solvers treat it as an ordinary assumption
+	c.define(implies(reach, entryReach))
+	c.define(implies(reach, inv))
 	c.cover(name+"-head", reach)
 	return st, reach
 }
@@ -1130,6 +1173,16 @@ func (c *FnCtx) checkBackEdge(li *loopInfo, st *State, cond Term) {
 	name := fmt.Sprintf("loop%d", li.ordinal)
 	env := c.envFor(st, c.entry)
 	env.header = li.header
+	env.head = c.in[li.header]
+	for i, cl := range ls.Hints {
+		tv, err := c.evalSpec(cl.E, env)
+		if err != nil {
+			c.abort("%s hint %d: %v", name, i+1, err)
+			return
+		}
+		c.oblige("hint", fmt.Sprintf("%s.%d", name, i+1), cond, tv.t, "hint: "+cl.Text)
+		c.assume(cond, tv.t)
+	}
 	for i, cl := range ls.Invariants {
 		tv, err := c.evalSpec(cl.E, env)
 		if err != nil {
